@@ -8,6 +8,8 @@ import Verif.Model.States
 import Verif.Model.Tokenizer
 import Verif.Model.ExprParser
 import Verif.Model.Value
+import Verif.Model.Funcs
+import Verif.Model.Calc
 
 open Verif
 
@@ -354,6 +356,67 @@ def doConv (args : List String) : String :=
     | _, _ => "bad-op"
   | _ => "bad-op"
 
+/-! ### functions, evaluation, collections -/
+
+def doFn (args : List String) : String :=
+  match args with
+  | m :: name :: vs =>
+    let vals := vs.map decV
+    if vals.all Option.isSome then encR (callFn (parseMgr m) (parseRunes name) (vals.filterMap id))
+    else "bad-op"
+  | _ => "bad-op"
+
+def encOut : Out V → String
+  | .ok v => "ok " ++ encV v
+  | .err c => "err " ++ c
+  | .panic s => "panic " ++ s
+
+def decConst (p : String) : V := (decV p).getD .null
+
+/-- `run`, except that the comparison is abandoned (host result) as soon as a host-dependent
+value reaches the stack: what follows would depend on a value the model does not know -/
+def runH (env : EvalEnv String V) : List (ETok String) → List V → Out V
+  | [], [v] => .ok v
+  | [], _ => .err "INTERNAL"
+  | t :: ts, st =>
+    match evalStep env t st with
+    | .ok st' =>
+      if (st'.head?.map isHostV).getD false then .ok (.host "eval" []) else runH env ts st'
+    | .err c => .err c
+    | .panic s => .panic s
+
+/-- `eval <mgr> <tok>* ; <name>=<value>*` -/
+def doEval (args : List String) : String :=
+  match args with
+  | m :: rest =>
+    let toksS := rest.takeWhile (· != ";")
+    let varsS := (rest.dropWhile (· != ";")).drop 1
+    let toks := toksS.filterMap parseETok
+    let vars := varsS.filterMap fun b =>
+      match b.splitOn "=" with
+      | [n, v] => (decV v).map fun vv => (parseRunes n, vv)
+      | _ => none
+    if toks.length != toksS.length || vars.length != varsS.length then "bad-op"
+    else encOut (runH (calcEnv (parseMgr m) decConst vars) toks [])
+  | _ => "bad-op"
+
+/-- `coll <op>*`: a:<name> add, f:<name> find index, l:<name> locate, r:<idx> remove, n:<name>
+removeByName, c clear; answers: find results, then the final list of names -/
+def doColl (args : List String) : String :=
+  let step (acc : Coll Nat × List String × Nat) (a : String) : Coll Nat × List String × Nat :=
+    let (c, outs, k) := acc
+    match a.splitOn ":" with
+    | ["a", n] => (c.add (parseRunes n) k, outs, k + 1)
+    | ["f", n] => (c, outs ++ [match c.findIndex (parseRunes n) with | some i => toString i | none => "-1"], k)
+    | ["l", n] => (c.locate (parseRunes n) k, outs, k + 1)
+    | ["r", i] => (match i.toNat? with | some i => c.removeAt i | none => c, outs, k)
+    | ["n", n] => (c.removeByName (parseRunes n), outs, k)
+    | ["c"] => (c.clear, outs, k)
+    | _ => (c, outs ++ ["bad"], k)
+  let (c, outs, _) := args.foldl step (⟨[]⟩, [], 0)
+  let names := c.items.map fun e => showRunes e.1 ++ "=" ++ toString e.2
+  " ".intercalate outs ++ " | " ++ " ".intercalate names
+
 def handle (line : String) : String :=
   match (line.trimAscii.toString.splitOn " ").filter (· != "") with
   | [] => ""
@@ -368,6 +431,9 @@ def handle (line : String) : String :=
   | "parse" :: args => doParse args
   | "op" :: args => doOp args
   | "conv" :: args => doConv args
+  | "fn" :: args => doFn args
+  | "eval" :: args => doEval args
+  | "coll" :: args => doColl args
   | _ => "bad-op"
 
 end Drv
